@@ -86,13 +86,20 @@ def coq_files():
     return files
 
 
-def coq_make(targets, timeout=3000):
-    """full .vo build of the given targets (and what they depend on). Returns (ok, output)."""
+def coq_make(targets, timeout=2400, per_file=None):
+    """full .vo build of the given targets (and what they depend on). Returns (ok, output).
+    Every coqc runs under `timeout per_file` (default 300 s, WV_COQC_TIMEOUT overrides; the slowest file of the unchanged tree needs
+    ~90 s alone, ~200 s when 16 build in parallel): a changed source can send a proof script into a very long search - that is a
+    broken proof obligation, reported as such, not a reason for the check to run for an hour."""
+    per_file = per_file or int(os.environ.get("WV_COQC_TIMEOUT", "300"))
     with Lock("coq"):
         if not os.path.exists(os.path.join(COQ, "Makefile")) or \
                 os.path.getmtime(os.path.join(COQ, "Makefile")) < os.path.getmtime(os.path.join(COQ, "_CoqProject")):
             sh(["coq_makefile", "-f", "_CoqProject", "-o", "Makefile"], cwd=COQ)
-        rc, out = sh(["make", "-k", "-j%d" % NCPU] + targets, cwd=COQ, timeout=timeout)
+        try:
+            rc, out = sh(["make", "-k", "-j%d" % NCPU, "TIMECMD=timeout %d" % per_file] + targets, cwd=COQ, timeout=timeout)
+        except subprocess.TimeoutExpired as e:
+            rc, out = 124, (e.stdout or "") + "\nmake did not finish within %d s" % timeout
     ok = all(os.path.exists(os.path.join(COQ, t)) for t in targets) and rc == 0
     return ok, out
 
